@@ -684,7 +684,7 @@ def network(profile="exact", max_ops=6, dtypes=("int8", "int8", "int8", "uint8",
             menu = ["conv", "conv", "conv", "dw", "padconv", "fc"]
             n_ops = draw(st.integers(1, 2))
         if profile == "luts":  # many table-driven activations in one NPU subgraph: LUT slot allocation, eviction and re-use (tables repeat because quantisations repeat)
-            menu = ["logistic", "tanh", "hswish", "lrelu", "logistic", "tanh", "hswish", "lrelu", "add_const", "relu", "conv", "softmax"]
+            menu = ["logistic", "tanh", "hswish", "lrelu", "logistic", "tanh", "hswish", "lrelu", "add_const", "relu", "conv", "softmax", "softmax", "softmax", "exp", "gelu", "sqrt", "log", "rsqrt"]
             n_ops = draw(st.integers(4, max(max_ops, 4)))
         if profile == "elementwise":  # binary operators with every broadcast form in either operand position, constants and scalars, chained
             menu = ["add", "sub", "sub", "mul", "maximum", "minimum", "add_const", "mul_const", "sub_const", "relu", "quantize", "reshape"]
